@@ -253,6 +253,31 @@ class Lib:
         for g in generators:
             if g.is_async:
                 raise Undecided('async comprehension')
+            if concrete_scopes is not None and not bound:
+                # an inner generator after concrete outer ones: its iterable may depend on the outer variables -- one evaluation per outer instance
+                its = [I.eval(g.iter, base) for base in concrete_scopes]
+                if all(isinstance(x, (list, tuple, set, frozenset, dict)) for x in its):
+                    scopes = []
+                    for base, it in zip(concrete_scopes, its):
+                        for x in it:
+                            s2 = Scope(base, bound=True)
+                            I.assign(g.target, x, s2)
+                            ok = True
+                            for cond in g.ifs:
+                                t = I.truth(I.eval(cond, s2))
+                                if isinstance(t, bool):
+                                    ok = ok and t
+                                elif not I.path.nofork:
+                                    ok = ok and I.path.cond(t)
+                                else:
+                                    raise Undecided('symbolic filter over a concrete iterable')
+                            if ok:
+                                scopes.append(s2)
+                    concrete_scopes = scopes
+                    continue
+                if not concrete_scopes:
+                    return None, None, []
+                raise Undecided('mixed concrete/symbolic comprehension')
             it = I.eval(g.iter, sc)
             if isinstance(it, SNamespace) and it.members and all(isinstance(m, SV) and m.typ.kind == 'Enum' for m in it.members.values()):
                 it = list(it.members.values())      # iteration over an Enum class: its members in definition order
